@@ -174,17 +174,21 @@ func init() {
 		return EnumConstWindowShapes([]int{256, 512})
 	}
 	reg(progSpec{Prop: "C01", Profiles: []string{"core"}, QuickN: 1500, ThoroughN: 40000, FaultPct: 10, Layouts: one,
-		Must: func(th bool) []*Program { return append(constWindows(th), EnumIteratorShapes()...) },
+		Must: func(th bool) []*Program {
+			return append(append(constWindows(th), EnumIteratorShapes()...), EnumUninitLocalShapes()...)
+		},
 		Enums: func() []*Program {
 			return append(EnumAssignShapes(3, 3), EnumCondShapes(3)...)
 		},
-		Rule: "typed random programs of profile `core` (all operators/nestings, coercions, logical operators in every context, table constructors, multiple assignment, all loop kinds, break, goto) + bounded-exhaustive assignment shapes (k,m ≤ 3 over storage classes) and condition trees (depth ≤ 3 × contexts) + user-written iterators (control values of every type, stateless/closure/callable, break, nesting, arity) + constant-pool windows (one block with a constant in every operand position behind n filler constants, n sweeping the 256/512(/768/1024/2048) operand boundaries) + corpus; each run on the real interpreter and judged by the Lean reference semantics (emit trace, chunk results, failure line); distinct = distinct normalised AST skeletons"})
+		Rule: "typed random programs of profile `core` (all operators/nestings, coercions, logical operators in every context, table constructors, multiple assignment, all loop kinds, break, goto) + bounded-exhaustive assignment shapes (k,m ≤ 3 over storage classes) and condition trees (depth ≤ 3 × contexts) + uninitialised local declarations re-executed by every loop kind at every function-start position + user-written iterators (control values of every type, stateless/closure/callable, break, nesting, arity) + constant-pool windows (one block with a constant in every operand position behind n filler constants, n sweeping the 256/512(/768/1024/2048) operand boundaries) + corpus; each run on the real interpreter and judged by the Lean reference semantics (emit trace, chunk results, failure line); distinct = distinct normalised AST skeletons"})
 	reg(progSpec{Prop: "C02", Profiles: []string{"calls"}, QuickN: 1200, ThoroughN: 30000, FaultPct: 5, Layouts: one, Must: constWindows,
 		Enums: EnumCallShapes,
 		Rule: "profile `calls` (varargs, multiple results in every context, method sugar, tail calls, select, unpack) + bounded-exhaustive call shapes + corpus; oracle = Lean reference semantics"})
 	reg(progSpec{Prop: "C03", Profiles: []string{"closures"}, QuickN: 1200, ThoroughN: 30000, FaultPct: 10, Layouts: one,
-		Enums: func() []*Program { return append(EnumClosureExitShapes(), EnumRegisterZeroLoopShapes()...) }, WrapEnums: true,
-		Rule: "profile `closures` (capture × exit path × register reuse; shared upvalues; setfenv/getfenv) + exhaustive closure exit shapes + corpus; oracle = Lean reference semantics"})
+		Enums: func() []*Program {
+			return append(append(EnumClosureExitShapes(), EnumRegisterZeroLoopShapes()...), EnumNestedCloseShapes()...)
+		}, WrapEnums: true,
+		Rule: "profile `closures` (capture × exit path × register reuse; shared upvalues; setfenv/getfenv) + exhaustive closure exit shapes + register-0 loop shapes + nested-close shapes (captured block ending in a capturing nested block, taken/skipped/left early) + corpus; oracle = Lean reference semantics"})
 	reg(progSpec{Prop: "C04", Profiles: []string{"meta"}, QuickN: 1000, ThoroughN: 25000, FaultPct: 10, Layouts: one,
 		Rule: "profile `meta` (metatables with every subset of events, chains, operand type pairs, logging handlers) + corpus; oracle = Lean reference semantics (manual §2.8)"})
 	reg(progSpec{Prop: "C05", Profiles: []string{"errors"}, QuickN: 1200, ThoroughN: 30000, FaultPct: 60, Layouts: one,
